@@ -19,7 +19,7 @@ ASSUMPTIONS = [
     "With ignore_extensions=True the base document alone may be invalid: then any GraphQLError is accepted, otherwise the structure must equal the base-only spec.",
     "Documented leniencies are not treated as invalid: unknown extension targets are ignored by build_schema (strict=False).",
 ]
-BUDGET = {"quick": 400, "thorough": 8000}
+BUDGET = {"quick": 800, "thorough": 8000}
 
 
 def _additional(spec, which):
